@@ -84,7 +84,11 @@ prop("C17", True, "C",
      'Every stream of the bounded space and every arrival order (all permutations up to 4 items; rotations, reversal, adjacent swaps for 5-6) is executed; ties are accepted either way, tie-free results must be identical across orders.',
      'Trusted: the counting-rule reference in engine/src/props/c17.rs; dyadic distances make the f64 sums exact.',
      "7/C17")
-prop("C18", False, "D", "", "", NB, "7/C18")
+prop("C18", True, "D",
+     "exhaustive enumeration of all API scripts up to a depth over fixed argument menus (4.3k scripts / 44k steps quick, 33k / 495k thorough), each executed through the Python module built from the tree and through a Rust driver calling the wrapped Rust API directly, outputs compared step by step",
+     "Every script of the bounded space is executed on both sides; every returned object is dumped through every getter (floats as f64 bit patterns), so a getter wired to the wrong field, a changed default, a wrong conversion or a transmute that breaks layout shows as a differing line. All 188 names the module exposes are exercised. Defaults: each defaulted parameter is omitted in turn and compared with a control that passes the documented value.",
+     "Trusted: the table in pybind/pydrv/src/main.rs of which Rust call each Python name wraps and which default is documented (sources listed in the evidence assumptions). Arguments outside the documented domains are not enumerated (the bindings validate them differently on purpose). Both builds are cfg-off (real threads); compared results are schedule independent (shards=1 / voting_shards=1 or compared up to order).",
+     "7/C18")
 prop("C20", True, "A+C",
      "exhaustive enumeration of every ordered constraint table of <= 3 (4) entries over gaps 0..8 x 3 limits, every split into two add calls and every (gap, distance) probe on the real validate(); exhaustive enumeration of all motion words (still / hops / jump / missed frame) of length 5 (6) on the real Sort / VisualSort with slack and binding tables, admission re-derived from the pre-call store",
      "Tables: the complete finite product is executed against 'first configured limit of the smallest configured gap >= d', monotone in distance. Trackers: slack tables must give records identical to the unconstrained tracker (differential); with binding tables no continuation may violate the limit for its epoch gap and the association must be optimal among admitted pairs; the number of gated pairs actually removed by a table is reported as vacuity guard.",
